@@ -259,6 +259,13 @@ class Interp:
                 v = self.ev(s.value, env, fn)
                 for t in (s.targets if isinstance(s, ast.Assign) else [s.target]):
                     self.assign(t, v, env, fn)
+                    if isinstance(t, ast.Name):
+                        # a named truth value (`use_x = y is not None and ...`) keeps its statically known value
+                        env.pop('?truth:' + t.id, None)
+                        if isinstance(s.value, (ast.BoolOp, ast.Compare, ast.UnaryOp)):
+                            tv = self.static_test(s.value, env, fn)
+                            if tv is not None:
+                                env['?truth:' + t.id] = tv
                 continue
             if isinstance(s, ast.AugAssign):
                 cur = self.ev(ast.copy_location(ast.parse(norm(s.target), mode='eval').body, s.target), env, fn)
@@ -292,7 +299,22 @@ class Interp:
         return []
 
     def static_test(self, t: ast.AST, env: Dict[str, Any], fn: FuncInfo) -> Optional[bool]:
-        """`x is None` for a known-None / known-not-None argument."""
+        """`x is None` for a known-None / known-not-None argument, through not / and / or and named truth values."""
+        if isinstance(t, ast.UnaryOp) and isinstance(t.op, ast.Not):
+            v = self.static_test(t.operand, env, fn)
+            return None if v is None else not v
+        if isinstance(t, ast.BoolOp):
+            vals = [self.static_test(x, env, fn) for x in t.values]
+            if isinstance(t.op, ast.And):
+                # left to right: a known-False conjunct decides if everything before it is known True or irrelevant
+                if any(v is False for v in vals):
+                    return False
+                return True if all(v is True for v in vals) else None
+            if any(v is True for v in vals):
+                return True
+            return False if all(v is False for v in vals) else None
+        if isinstance(t, ast.Name) and ('?truth:' + t.id) in env:
+            return env['?truth:' + t.id]
         if isinstance(t, ast.Compare) and len(t.ops) == 1 and isinstance(t.comparators[0], ast.Constant) \
                 and t.comparators[0].value is None and isinstance(t.ops[0], (ast.Is, ast.IsNot)):
             val = MISSING = object()
@@ -388,6 +410,15 @@ class Interp:
         if isinstance(e, ast.Compare):
             for x in [e.left] + list(e.comparators):
                 self.ev(x, env, fn)
+            return Scalar()
+        if isinstance(e, ast.BoolOp):
+            # a truth value; operands after the first may not be evaluated at run time (short circuit)
+            self.ev(e.values[0], env, fn)
+            for x in e.values[1:]:
+                try:
+                    self.ev(x, env, fn)
+                except ShapeUnknown:
+                    pass
             return Scalar()
         if isinstance(e, ast.Tuple) or isinstance(e, ast.List):
             return Tup([self.ev(x, env, fn) for x in e.elts])
